@@ -220,17 +220,28 @@ def c11_3(ctx, ss):
     repeat_raises = []
     for r in raises:
         atoms = [(flow.expand(e), pol) for kind, e, pol in guards.path_conditions(ff.node, r) if kind == "if"]
-        mem = [(e, pol) for e, pol in atoms if isinstance(e, ast.Compare) and isinstance(e.ops[0], ast.In) and txt(e.comparators[0]) == ff.params[0]]
+        P0 = ff.params[0]
+        mem = [(e, pol) for e, pol in atoms if isinstance(e, ast.Compare) and isinstance(e.ops[0], ast.In) and txt(e.comparators[0]) == P0]
+        # `seen = modes.get(mother)` … `seen is not None`: the same membership fact
+        mem += [(e, not pol) for e, pol in atoms if isinstance(e, ast.Compare) and isinstance(e.ops[0], ast.Is) and txt(e.comparators[0]) == "None"
+                and isinstance(e.left, ast.Call) and txt(e.left.func) == f"{P0}.get"]
         if not mem:
             continue
         repeat_raises.append(r)
         # canonical atoms: `a != b` holds  ==  (`a == b`, False)
         differs = [(e, pol) for e, pol in atoms if isinstance(e, ast.Compare) and isinstance(e.ops[0], ast.Eq) and pol is False
-                   and f"{ff.params[0]}[" in txt(e) and ("from_dict(" in txt(e) or ".to_dict()" in txt(e))]
+                   and (f"{ff.params[0]}[" in txt(e) or f"{ff.params[0]}.get(" in txt(e)) and ("from_dict(" in txt(e) or ".to_dict()" in txt(e))]
         if all(pol for _, pol in mem) and len(differs) == 1 and len(atoms) == len(mem) + 1:
             cmp_ok = True
         elif all(pol for _, pol in mem) and len(atoms) == len(mem):
             bad = r
+    # any other raise whose guard mentions the collected modes (e.g. a negated or an `or` form of the conflict test)
+    others = [r for r in raises if r not in repeat_raises and any(ff.params[0] in txt(flow.expand(e)) for kind, e, pol in guards.path_conditions(ff.node, r) if kind == "if")]
+    if others and bad is None:
+        ctx.violation("C11.3", key, where(ff, others[0]),
+                      f"a mother is refused under `{[(txt(e)[:70], pol) for kind, e, pol in guards.path_conditions(ff.node, others[0]) if kind == 'if']}`, not exactly when it was already "
+                      "collected with a different decay mode: identical repeated sub-decays are rejected, or conflicting ones accepted")
+        return
     if bad is None and repeat_raises and not cmp_ok:
         ctx.violation("C11.3", key, where(ff, repeat_raises[0]),
                       "a mother seen again is refused under a condition other than 'already collected AND its decay mode differs': identical repeated sub-decays "
@@ -241,7 +252,10 @@ def c11_3(ctx, ss):
                       "the dictionary reader raises whenever a mother key was already seen, but DecayChain.to_dict emits the same key once per position "
                       "of a repeated decaying daughter (D0 -> pi0 pi0, pi0 -> gamma gamma): such a chain cannot be rebuilt from its own dictionary", 2)
     else:
-        ctx.holds("C11.3", key, where(ff, ff.node), "a repeated mother key is not rejected unconditionally", len(raises) + 1)
+        if cmp_ok:
+            ctx.holds("C11.3", key, where(ff, ff.node), "a mother seen again is refused exactly when its decay mode differs from the one collected", len(raises) + 1)
+        else:
+            ctx.violation("C11.3", key, where(ff, ff.node), "a dictionary in which a mother has two different decay modes is not refused: the rebuilt chain silently keeps one of them")
 
 
 def c11_8(ctx, ss):
